@@ -15,6 +15,9 @@ CLAIMED = ['C01', 'C02', 'C03', 'C04', 'C06', 'C07', 'C08', 'C09', 'C10', 'C11',
            'C12', 'C13', 'C14', 'C15', 'C16', 'C17', 'C19', 'C20']
 
 
+GENERIC = ('ARGSWAP', 'MUTDEFAULT', 'LOOPCARRY', 'NAMEIN', 'SETTERORDER')
+
+
 def run_check(pid, tier, root=None, write=True):
     try:
         prog = Program(root)
@@ -39,7 +42,7 @@ def run_check(pid, tier, root=None, write=True):
         from .rules.argswap import argswap_rule
         run.rule('ARGSWAP', 'at every call of a repository function made from a function this property is anchored in, no two '
                  'positional arguments are crossed with respect to the callee\'s parameter names')
-        quals = sorted(set(q for r, qs in prog.consulted.items() if r != 'ARGSWAP' for q in qs))
+        quals = sorted(set(q for r, qs in prog.consulted.items() if r not in GENERIC for q in qs))
         funcs = []
         for q in quals:
             try: funcs.append(prog.func(q))
@@ -51,7 +54,7 @@ def run_check(pid, tier, root=None, write=True):
         from .rules.mutdefault import mutdefault_rule
         run.rule('MUTDEFAULT', 'in every function this property is anchored in, a parameter whose default is a mutable literal is never mutated '
                  'in place: the default is one object shared by all calls, so a mutation carries state from one call to the next')
-        quals = sorted(set(q for r, qs in prog.consulted.items() if r not in ('ARGSWAP', 'MUTDEFAULT') for q in qs))
+        quals = sorted(set(q for r, qs in prog.consulted.items() if r not in GENERIC for q in qs))
         funcs = []
         for q in quals:
             try: funcs.append(prog.func(q))
@@ -59,6 +62,44 @@ def run_check(pid, tier, root=None, write=True):
         n = mutdefault_rule(run, funcs)
         run.ok('mutable defaults in %d anchored functions' % len(funcs), {'parameters': n})
     run.guarded('MUTDEFAULT', _mutdefault)
+    def _loopcarry(run):
+        from .rules.loopcarry import loopcarry_rule
+        run.rule('LOOPCARRY', 'in every function this property is anchored in, a local that a loop body assigns only under a condition is not handed '
+                 'on later in the same iteration with the value of an earlier iteration (every path of the iteration assigns it before it is used)')
+        quals = sorted(set(q for r, qs in prog.consulted.items() if r not in GENERIC for q in qs))
+        funcs = []
+        for q in quals:
+            try: funcs.append(prog.func(q))
+            except AnalysisError: pass
+        # ... and in every other function of the modules those functions live in (the shared record readers / writers)
+        mods_ = sorted(set(f.module.name for f in funcs))
+        seen_ = set(f.qual for f in funcs)
+        funcs += [f for f in prog.all_functions(mods_) if f.qual not in seen_]
+        n = loopcarry_rule(run, funcs)
+        run.ok('loops of %d functions in %s' % (len(funcs), mods_), {'conditional carries': n})
+    run.guarded('LOOPCARRY', _loopcarry)
+    def _namein(run):
+        from .rules.namein import namein_rule
+        run.rule('NAMEIN', 'in the modules this property is anchored in, no membership test asks whether a name (text) is in a list that holds the '
+                 'objects themselves (the by-name dictionary next to it is the place to look a name up)')
+        quals = sorted(set(q for r, qs in prog.consulted.items() if r not in GENERIC for q in qs))
+        mods_ = sorted(set(prog.func(q).module.name for q in quals))
+        funcs = list(prog.all_functions(mods_))
+        n = namein_rule(run, funcs)
+        run.ok('membership tests against object lists in %s' % mods_, {'tests': n})
+    run.guarded('NAMEIN', _namein)
+    def _setterorder(run):
+        from .rules.setterorder import setterorder_rule
+        run.rule('SETTERORDER', 'in the classes this property is anchored in, a property setter stores its backing field before it calls the '
+                 'methods that read that field to re-derive dependent state')
+        quals = sorted(set(q for r, qs in prog.consulted.items() if r not in GENERIC for q in qs))
+        classes = {}
+        for q in quals:
+            f = prog.func(q)
+            if f.cls is not None: classes[(f.module.name, f.cls.name)] = f.cls
+        n = setterorder_rule(run, [c for k, c in sorted(classes.items())])
+        run.ok('setters with dependent-state calls in %d classes' % len(classes), {'setters': n})
+    run.guarded('SETTERORDER', _setterorder)
     if tier == 'thorough' and root is None:
         # deeper tier: the checker itself is validated by single-instance mutants and behaviour-preserving twins
         from . import selftest
